@@ -43,7 +43,13 @@ EXPLANATION = (
     "indices (first/second position, mixed positions, shared index on a third object / third unitary tensor / provided "
     "target, only 2-index tensors). R20b: rebuilding (both occurrences removed, every other object multiplied back once "
     "wherever it stands, prefactors, recursion to the fixed point, every term of the expression once, fewer than two "
-    "unitary tensors unchanged, assumptions kept, non-Expr input refused). R20c: bookkeeping (occurrences counted with "
+    "unitary tensors unchanged, assumptions kept, non-Expr input refused; a sum kept as one factor (a+b)^n - the library's "
+    "Polynom object - is an atomic factor of the product, and when a pair leaves delta = 1 and nothing but number * (a+b) "
+    "behind, the rebuilt product is a sum of terms: every addend is kept with the number distributed and each addend is "
+    "simplified to the fixed point again - sum factor alone, with a number, three addends, addends with their own contracted "
+    "indices or unitary pairs, no targets, next to another tensor, squared, next to a pair that leaves a delta, several "
+    "terms, with delta evaluation; the value comparison multiplies sum factors out so that every addend is summed over its "
+    "own contracted indices). R20c: bookkeeping (occurrences counted with "
     "exponent multiplicity and denominators, exact tensor name, provided targets instead of Einstein targets, "
     "Term._idx_counter/idx/target/contracted against a direct count, delta evaluation exactly once and only on request, "
     "on the whole result, with a target set that protects the true targets - spin-labelled ones and provided targets "
@@ -70,6 +76,10 @@ ASSUMPTIONS = [
     "merge equal bases like sympy, KroneckerDelta(p, p) = 1 and delta**n = delta; sympy's isinstance(Add/Mul/Pow), .args, "
     ".func, .atoms(Index), .has, .subs(index, index), Mul/Add.make_args are modelled on these products; get_symbols(<str>) yields spin-less "
     "indices; func.evaluate_deltas and the KroneckerDelta properties it reads are evaluated from their source",
+    "sum factors: number * (a+b) is distributed to a sum of terms as sympy does (Expr.terms / len(Expr) of the model), (a+b)^n "
+    "next to other factors or with n != 1 stays one factor whose idx lists the indices of all addends with multiplicity (as "
+    "Polynom.idx); scenarios with sum factors use provided target indices (the sum convention over a Polynom counts an index "
+    "once per addend and is outside the decided domain); unitary tensors inside a sum factor that stays a factor are not looked at",
     "orthogonality is represented by one fixed rational rotation matrix (non-symmetric), dimension 2",
     "evaluate_deltas: products of at most three deltas over four indices of one space (quick: the pairs and seven triples "
     "listed in evd_family, thorough: all pairs and triples), one remainder out of a fixed list; a spin label acts only as "
@@ -106,8 +116,22 @@ def is_delta(b):
     return is_tens(b) and b.args[0] == "delta"
 
 
+def poly(*addends):
+    """A sum kept as ONE factor of a product, (a + b + ...): what the library wraps in a Polynom object."""
+    return T("poly", t_add(*addends))
+
+
+def is_poly(b):
+    return isinstance(b, T) and b.op == "poly"
+
+
 def keys_of(b):
-    return b.args[1] if is_tens(b) else ()
+    """Indices of a factor, one entry per position; for a sum factor the indices of all its addends (with multiplicity)."""
+    if is_tens(b):
+        return b.args[1]
+    if is_poly(b):
+        return tuple(sorted(k for c, d in monomials(b.args[0]) for x, e in d.items() for k in keys_of(x) for _ in range(abs(e))))
+    return ()
 
 
 def split_pow(f):
@@ -125,11 +149,17 @@ def monomials(v):
             b, e = split_pow(f)
             d[b] = d.get(b, 0) + e
         d = {b: (1 if is_delta(b) and e >= 1 else e) for b, e in d.items() if e != 0}
-        k = mono_key(1, d)
-        if k in acc:
-            acc[k] = (acc[k][0] + Fraction(c), d)
+        if len(d) == 1 and all(is_poly(b) and e == 1 for b, e in d.items()):
+            # number * (a + b) is no product: the number is distributed and the sum is a sum of terms (as sympy does)
+            parts = [(Fraction(c) * c2, d2) for b in d for c2, d2 in monomials(b.args[0])]
         else:
-            acc[k] = (Fraction(c), d)
+            parts = [(Fraction(c), d)]
+        for c2, d2 in parts:
+            k = mono_key(1, d2)
+            if k in acc:
+                acc[k] = (acc[k][0] + c2, d2)
+            else:
+                acc[k] = (c2, d2)
     return [(c, d) for c, d in acc.values() if c != 0]
 
 
@@ -148,7 +178,7 @@ def show_monos(monos):
     for c, d in monos:
         fs = [str(c)] if c != 1 or not d else []
         for b, e in sorted(d.items(), key=lambda x: repr(x[0])):
-            s = f"{b.args[0]}_{''.join(b.args[1])}" if is_tens(b) else show(b)
+            s = f"{b.args[0]}_{''.join(b.args[1])}" if is_tens(b) else f"({show_monos(monomials(b.args[0]))})" if is_poly(b) else show(b)
             fs.append(s if e == 1 else f"{s}^{e}")
         out.append(" ".join(fs))
     return " + ".join(out)
@@ -209,6 +239,8 @@ class World:
             name = None if is_delta(base) else base.args[0]
             idx = tuple(self.ix(k) for k in base.args[1])
             val = t_pow(base, exp)
+        elif is_poly(base):
+            name, idx, val = None, tuple(self.ix(k) for k in keys_of(base)), t_pow(base, exp)
         else:  # a number
             name, idx, val, exp = None, (), base, 1
         r.__dict__["name"] = f"<{show(val)}>"
@@ -281,6 +313,8 @@ def einstein_per_object(d):
 def substitute(d, old, new):
     out = {}
     for b, e in d.items():
+        if is_poly(b) and old in keys_of(b):
+            b = poly(*[from_monos([(c2, substitute(d2, old, new))]) for c2, d2 in monomials(b.args[0])])
         if is_tens(b) and old in b.args[1]:
             ks = [new if k == old else k for k in b.args[1]]
             b = delta(*ks) if b.args[0] == "delta" else tens(b.args[0], ks)
@@ -360,7 +394,7 @@ class Run:
                         isinstance_hook=self.isinst, hooks={
             "Mul": self.h_mul, "Add": self.h_add, "Mul.make_args": self.h_make_args("mul"), "Add.make_args": self.h_make_args("add"), "atoms": self.h_atoms, "has": self.h_has, "subs": self.h_subs, "func": self.h_func,
             "Expr": self.h_expr, "KroneckerDelta": self.h_delta, "Pow": self.h_pow, "evaluate_deltas": self.h_evd,
-            "sort_idx_canonical": self.h_sortkey, "get_symbols": self.h_get_symbols})
+            "sort_idx_canonical": self.h_sortkey, "get_symbols": self.h_get_symbols, "len": self.h_len})
         self.sx.strict_names = True   # an undefined name is a NameError of the library, not an external value
         self.sx.on_start = self._reset
 
@@ -475,6 +509,19 @@ class Run:
             return t_pow(b, n)
         return T("pow", b, n)
 
+    def h_len(self, sx, args, kw):
+        """len() of an Expr container: the number of its terms (0 has length 1); of a Term: the number of its objects."""
+        if len(args) == 1 and not kw:
+            x = args[0]
+            if isinstance(x, T) and has_cont(x):
+                v, _ = self.w.unwrap(x)
+                return max(1, len(monomials(v)))
+            if isinstance(x, Rec) and x.__dict__.get("cls") == EXPR:
+                return max(1, len(x.attrs["terms"]))
+            if isinstance(x, Rec) and x.__dict__.get("cls") == TERM:
+                return len(x.attrs["objects"])
+        return NotImplemented
+
     def h_sortkey(self, sx, args, kw):
         o = args[0]
         if isinstance(o, Obj) and "name" in o.attrs:
@@ -562,6 +609,8 @@ def _is_value(x):
         return False
     if x.op == "tens":
         return True
+    if x.op == "poly":
+        return _is_value(x.args[0])
     if x.op in ("mul", "add"):
         return all(_is_value(y) for y in x.args)
     if x.op == "pow":
@@ -588,6 +637,12 @@ def parse_term(s, spin="", spins=None):
     for tok in s.split():
         if ":" not in tok:
             coeff *= Fraction(tok)
+            continue
+        if tok.startswith("("):
+            # '(X:i+2*Y:i)^2': a sum kept as one factor
+            inner, _, ex = tok[1:].partition(")")
+            adds = [parse_term(a.replace("*", " "), spin, spins) for a in inner.split("+")]
+            facs.append((poly(*[t_mul(_num(c), *[t_pow(b, e) for b, e in fs]) for c, fs in adds]), int(ex[1:]) if ex else 1))
             continue
         name, rest = tok.split(":")
         idx, _, ex = rest.partition("^")
@@ -709,6 +764,23 @@ def normal_forms(d, targets, uname, provided):
     return nfs
 
 
+def closed_forms(c, x, targets, uname, provided, depth=0):
+    """The normal form x (times c) as sums of terms.  A product that is nothing but number * (a + b) is a sum of terms (the
+    number is distributed); each of these terms is subject to the rewriting again, to the fixed point."""
+    ms = monomials(from_monos([(c, x)]))
+    if len(ms) == 1 and mono_key(1, ms[0][1]) == mono_key(1, x):
+        return [ms]
+    if depth > 4:
+        raise AnalysisError("reference: sum factors nested too deeply")
+    per = []
+    for c2, d2 in ms:
+        alts = []
+        for y in normal_forms(d2, targets, uname, provided).values():
+            alts.extend(closed_forms(c2, y, targets, uname, provided, depth + 1))
+        per.append(alts)
+    return [[m for part in choice for m in part] for choice in itertools.product(*per)]
+
+
 def tvalue(name, vals, uname):
     if name == "delta":
         return Fraction(1 if vals[0] == vals[1] else 0)
@@ -722,13 +794,14 @@ def value(monos, targets, uname):
     """{assignment of the targets: value}; all other indices of a product are summed over {0..DIM-1}."""
     tg = sorted(targets)
     out = {}
+    monos = distributed(monos)
     for asg in itertools.product(range(DIM), repeat=len(tg)):
         env0 = dict(zip(tg, asg))
         tot = Fraction(0)
         for c, d in monos:
             free = sorted({k for b in d for k in keys_of(b)} - set(tg))
             for b in d:
-                if not is_tens(b):
+                if not (is_tens(b) or is_poly(b)):
                     raise _Unknown(show(b))
             s = Fraction(0)
             for fa in itertools.product(range(DIM), repeat=len(free)):
@@ -736,11 +809,53 @@ def value(monos, targets, uname):
                 env.update(zip(free, fa))
                 p = Fraction(1)
                 for b, e in d.items():
-                    p *= tvalue(b.args[0], [env[k] for k in b.args[1]], uname) ** e
+                    p *= factor_value(b, env, uname) ** e
                 s += p
             tot += c * s
         out[asg] = tot
     return out
+
+
+def distributed(monos):
+    """Every sum factor with a positive exponent multiplied out, so that each product is summed over its own contracted
+    indices only (sum_k (X_i + Y_ik Z_k) = X_i + sum_k Y_ik Z_k)."""
+    out = []
+    for c, d in monos:
+        if not any(is_poly(b) and isinstance(e, int) and e > 0 for b, e in d.items()):
+            out.append((c, d))
+            continue
+        acc = [(Fraction(c), {})]
+        for b, e in d.items():
+            if is_poly(b) and isinstance(e, int) and e > 0:
+                parts = distributed(monomials(b.args[0]))
+                for _ in range(e):
+                    acc = [(c1 * c2, _merge(d1, d2)) for c1, d1 in acc for c2, d2 in parts]
+            else:
+                acc = [(c1, _merge(d1, {b: e})) for c1, d1 in acc]
+        out.extend(acc)
+    return out
+
+
+def _merge(d1, d2):
+    d = dict(d1)
+    for b, e in d2.items():
+        d[b] = d.get(b, 0) + e
+    return {b: (1 if is_delta(b) and e >= 1 else e) for b, e in d.items() if e != 0}
+
+
+def factor_value(b, env, uname):
+    """Value of one factor for an assignment of ALL its indices (a sum factor: the sum of the values of its addends)."""
+    if is_tens(b):
+        return tvalue(b.args[0], [env[k] for k in b.args[1]], uname)
+    tot = Fraction(0)
+    for c, d in monomials(b.args[0]):
+        p = Fraction(c)
+        for x, e in d.items():
+            if not (is_tens(x) or is_poly(x)):
+                raise _Unknown(show(x))
+            p *= factor_value(x, env, uname) ** e
+        tot += p
+    return tot
 
 
 class _Unknown(Exception):
@@ -800,8 +915,10 @@ def check_scenario(ctx, run, scn, fnnode):
                             f"the scenario says otherwise")
     # (1) reference normal form
     allowed = []
-    for choice in itertools.product(*[[(c, x) for x in nfs.values()] for c, d, nfs in per_term]):
-        allowed.append(monomials(t_add(*[t_mul(_num(c), *[t_pow(b, e) for b, e in x.items()]) for c, x in choice])))
+    provided = scn.akey[3] is not None
+    for choice in itertools.product(*[[ms for x in nfs.values() for ms in closed_forms(c, x, tg, scn.t_name, provided)]
+                                      for c, d, nfs in per_term]):
+        allowed.append(monomials(from_monos([m for ms in choice for m in ms])))
     evd = [e for e in o.effects if isinstance(e, T) and e.op == "evd"]
     if not scn.ed:
         ok = any(expr_key(got) == expr_key(a) for a in allowed)
@@ -892,6 +1009,19 @@ SCENARIOS = [
     Scenario("terms-first-only", "R20b", "only the last term simplifies", ["X:ij Y:ij", "5 U:ik U:jk Y:ij"], changed=True),
     Scenario("assumptions", "R20b", "non-default assumptions", "U:ki U:kj X:im Y:jn", target="ijmn", real=True,
              sym_tensors=("X",), antisym_tensors=("Y",), changed=True),
+    # a sum kept as one factor, (a + b)^1: when the pair leaves delta = 1 and nothing but the sum factor behind, the rebuilt
+    # product is a sum of terms - every addend is kept
+    Scenario("sum-factor", "R20b", "squared unitary tensor next to a sum factor only", "U:ij^2 (X:i+Y:i)", target="i", changed=True),
+    Scenario("sum-factor-number", "R20b", "squared unitary tensor next to a number and a sum factor", "2 U:ij^2 (X:i+Y:i)", target="i", changed=True),
+    Scenario("sum-factor-three", "R20b", "squared unitary tensor next to a sum factor of three addends", "-1/2 U:ij^2 (X:i+Y:i+3*Z:i)", target="i", changed=True),
+    Scenario("sum-factor-first", "R20b", "squared unitary tensor (first index contracted) next to a sum factor", "U:ji^2 (X:i+Y:ik*Z:k)", target="i", changed=True),
+    Scenario("sum-factor-scalar", "R20b", "squared unitary tensor next to a sum factor, no target indices", "U:ij^2 (X:i+Y:i)", target="", changed=True),
+    Scenario("sum-factor-tensor", "R20b", "squared unitary tensor next to a sum factor and another tensor", "U:ij^2 (X:i+Y:i) Z:k", target="ik", changed=True),
+    Scenario("sum-factor-square", "R20b", "squared unitary tensor next to a squared sum factor", "3 U:ij^2 (X:i+Y:i)^2", target="i", changed=True),
+    Scenario("sum-factor-pair", "R20b", "pair with a delta next to a sum factor", "U:ki U:kj (X:i+Y:i)", target="ij", changed=True),
+    Scenario("sum-factor-units", "R20b", "squared unitary tensor next to a sum factor whose addends hold unitary pairs", "U:ij^2 (X:i+U:ki*U:kl*Y:l)", target="i", changed=True),
+    Scenario("sum-factor-terms", "R20b", "two terms, one with a sum factor", ["U:ij^2 (X:i+Y:i)", "2 U:ki U:kl Z:l"], target="i", changed=True),
+    Scenario("sum-factor-evd", "R20b", "squared unitary tensor next to a sum factor, delta evaluation requested", "2 U:ij^2 (X:i+Y:i)", target="i", ed=True),
     Scenario("not-expr", "R20b", "a container that is not an Expr", "U:ki U:kj", as_term=True, raises="TypeError"),
     # ---- R20c: bookkeeping
     Scenario("exp-mult", "R20c", "unitary object with exponent 2 next to a partner", "U:ki^2 U:kj", target="ij", changed=False),
@@ -946,7 +1076,7 @@ def scenarios(ctx, rule):
         except _OutOfDomain as e:
             raise AnalysisError(f"C20 scenario {scn.sid} is outside the decided domain: {e}")
         n += 1
-    ctx.floor(rule, "model expressions evaluated", n, {"R20a": 32, "R20b": 13, "R20c": 30}[rule])
+    ctx.floor(rule, "model expressions evaluated", n, {"R20a": 32, "R20b": 24, "R20c": 30}[rule])
 
 
 def r20c_request(ctx):
